@@ -24,19 +24,21 @@ Definition d22_presc : @presc FOps :=
 
 Definition last_shape (l : @lens FOps) : option (@lshape FOps) :=
   match rev (l_surfs l) with s :: _ => Some (l_shape s) | [] => None end.
+Definition oshape_same (a b : option (@lshape FOps)) : bool :=
+  match a, b with Some x, Some y => shape_same x y | None, None => true | _, _ => false end.
+(** the file loads, the lens has as many surfaces as the file has SURF blocks, its last surface is a plane,
+    while the prescription's last surface is a sphere of radius 2 (evaluated in binary64 by the kernel's VM) *)
+Definition d22_check (p : @presc FOps) : bool :=
+  match load (O:=FOps) no_catalogue (emit (O:=FOps) f_show f_showZ p) with
+  | Some l => Nat.eqb (List.length (l_surfs l)) (List.length (l_surfs (lens_of p)))
+              && oshape_same (last_shape l) (Some fPlane)
+              && oshape_same (last_shape (lens_of p)) (Some (fStd 2%float 0%float))
+              && negb (lens_same l (lens_of p))
+  | None => false
+  end.
 
-Theorem image_surface_refuted :
-  exists p : @presc FOps,
-    match load (O:=FOps) no_catalogue (emit (O:=FOps) f_show f_showZ p) with
-    | Some l => List.length (l_surfs l) = List.length (l_surfs (lens_of p)) /\ last_shape l = Some LPlane
-    | None => False
-    end /\
-    last_shape (lens_of p) = Some (LStd (O:=FOps) 2%float 0%float).
-Proof.
-  exists d22_presc. split.
-  - vm_compute. split; reflexivity.
-  - vm_compute. reflexivity.
-Qed.
+Theorem image_surface_refuted : exists p : @presc FOps, d22_check p = true.
+Proof. exists d22_presc. vm_compute. reflexivity. Qed.
 
 (** the catalogue as the lookup sees it: (group, category_name, name) rows; the search keeps a row when the
     requested name occurs inside category_name or name (Material._find_material_matches) *)
@@ -48,13 +50,15 @@ Definition is_glass_name (cat : list (string * string * string)) (n : string) : 
 Definition d21_catalogue : list (string * string * string) :=
   [("main", "K", "Ives and Briggs 1936"); ("glass", "SCHOTT-BK", "N-BK7"); ("main", "SF6", "Vukovic et al. 1996")].
 
+Definition medium_is_abbe (m : @medium FOps) (nd vd : float) : bool :=
+  match m with MAbbe n v => same n nd && same v vd | _ => false end.
+(** "K" names no glass of the catalogue, yet the GLAS line's model glass (1.6, 50) is not what the lens gets *)
+Definition d21_check (cat : list (string * string * string)) (name : string) (nd vd : float) : bool :=
+  negb (is_glass_name cat name)
+  && negb (medium_is_abbe (resolve_glass (O:=FOps) (substring_lookup cat) name None nd vd) nd vd).
+
 Theorem unknown_substring_refuted :
-  exists (cat : list (string * string * string)) (name : string) (nd vd : float),
-    is_glass_name cat name = false /\
-    resolve_glass (O:=FOps) (substring_lookup cat) name None nd vd <> MAbbe (O:=FOps) nd vd.
-Proof.
-  exists d21_catalogue, "K", 0x1.999999999999ap+0%float, 50%float. split; [reflexivity|].
-  vm_compute. discriminate.
-Qed.
+  exists (cat : list (string * string * string)) (name : string) (nd vd : float), d21_check cat name nd vd = true.
+Proof. exists d21_catalogue, "K", 0x1.999999999999ap+0%float, 50%float. vm_compute. reflexivity. Qed.
 Print Assumptions image_surface_refuted.
 Print Assumptions unknown_substring_refuted.
